@@ -433,6 +433,16 @@ pub fn run_kp(fields: &[&str]) -> (i32, String) {
         let path = dir.join(format!("in{i}.txt"));
         if fields[3 + i] == "UNREADABLE" {
             args.push(dir.join(format!("missing{i}.txt")).to_string_lossy().to_string());
+        } else if fields[3 + i] == "DIRECTORY" {
+            let d = dir.join(format!("adir{i}"));
+            let _ = std::fs::create_dir_all(&d);
+            args.push(d.to_string_lossy().to_string());
+        } else if let Some(prefix) = fields[3 + i].strip_prefix("BROKEN:") {
+            // complete lines, then a line that is not UTF-8, then more lines
+            let mut bytes = unescape(prefix).into_bytes();
+            bytes.extend_from_slice(b"7 8 \xff\xfe # latin-1: \xe6\xf8\xe5\n9 9\n");
+            let _ = std::fs::write(&path, bytes);
+            args.push(path.to_string_lossy().to_string());
         } else {
             let _ = std::fs::write(&path, unescape(fields[3 + i]));
             args.push(path.to_string_lossy().to_string());
